@@ -280,6 +280,10 @@ static void pointers(mon::Rng& rng)
       memmon::enc_int(img, gs, static_cast<i128>(S::EXPORT_TABLE_BASE + 0));
       R.randomize(rng, off, off + gs);
       store_case("store-function-address", "int(*)(int)", off, img, gs, [&] { *pf = fa; }, "sandbox function address");
+      // load of the function-pointer cell: exactly the P-sized footprint, decoded through the table
+      R.randomize(rng, int64_t(off) - 64, int64_t(off + gs) + 64);
+      std::memcpy(R.mem() + off, img, gs);
+      load_case<uintptr_t>("load-to-tainted", off, gs, reinterpret_cast<uintptr_t>(&internal_tag), [&] { tainted<int (*)(int), S> t = *pf; return reinterpret_cast<uintptr_t>(t.UNSAFE_unverified()); }, "int(*)(int)");
       unsigned char zero[8] = { 0 };
       R.randomize(rng, off, off + gs);
       store_case("store-nullptr", "int(*)(int)", off, zero, gs, [&] { *pf = nullptr; }, "nullptr");
